@@ -795,6 +795,11 @@ Proof.
   - now apply map_setitem_wfs.
   - now apply map_delitem_wfs.
   - now apply map_update_wfs.
+  - unfold leave. destruct (take_child label (w_children st)); [now apply remove_child_wfs|exact W].
+  - unfold leave. destruct (take_child label (w_children st)); [now apply remove_child_wfs|exact W].
+  - unfold set_inputs. destruct (build_io st DIn) as [p|]; [|exact W].
+    destruct (negb (forallb (fun kv => mems (fst kv) (map fst p)) kw)); [exact W|].
+    eapply wfs_same; [apply assign_all_graph|exact W].
 Qed.
 
 Lemma run_ops_wfs ops : forall st, wfs st -> wfs (run_ops st ops).
@@ -1309,4 +1314,77 @@ Proof.
     destruct (mems k (map fst l)); [discriminate|now intros [= <-]].
   - destruct (kmap_of st d) as [l|]; [|now intros [= <-]].
     destruct (put_all l ps); [discriminate|now intros [= <-]].
+Qed.
+
+(* ---- leaving by parent assignment; keyword assignment ------------------------------------------------ *)
+(* whichever way a child leaves (remove_child, parent = None, parent = another workflow), it is
+   gone from the children and no connection of the workflow touches its channels any more *)
+Theorem leave_disconnects st l c cs :
+  take_child l (w_children st) = Some (c, cs) ->
+  leave st l = remove_child st l /\
+  snd (leave st l) = ROk /\
+  w_children (fst (leave st l)) = cs /\
+  (forall p, In p (w_conns (fst (leave st l))) <->
+             In p (w_conns st) /\ ~ In (fst p) (child_ids c) /\ ~ In (snd p) (child_ids c)) /\
+  (forall id, In id (child_ids c) -> connected (fst (leave st l)) id = false).
+Proof.
+  intros T. unfold leave, remove_child. rewrite T. simpl. repeat split; try tauto.
+  - apply filter_In in H as [H _]. exact H.
+  - apply filter_In in H as [_ H]. apply negb_true_iff, orb_false_iff in H as [H _].
+    intros Hi. apply memn_In in Hi. congruence.
+  - apply filter_In in H as [_ H]. apply negb_true_iff, orb_false_iff in H as [_ H].
+    intros Hi. apply memn_In in Hi. congruence.
+  - intros (H1 & H2 & H3). apply filter_In. split; [exact H1|]. apply negb_true_iff, orb_false_iff.
+    split; [destruct (memn (fst p) (child_ids c)) eqn:E|destruct (memn (snd p) (child_ids c)) eqn:E];
+      try reflexivity; apply memn_In in E; tauto.
+  - intros id Hid. unfold connected; simpl.
+    destruct (existsb (touches id) _) eqn:E; [|reflexivity]. exfalso.
+    apply existsb_exists in E as (p & Hp & Ht). apply filter_In in Hp as [_ Hp].
+    apply negb_true_iff, orb_false_iff in Hp as [Ha Hb].
+    unfold touches in Ht. apply orb_true_iff in Ht as [Ht|Ht]; apply Nat.eqb_eq in Ht; subst id;
+      apply memn_In in Hid; congruence.
+Qed.
+
+Lemma assign_all_keeps st p kw id :
+  (forall k v, In (k, v) kw -> assoc String.eqb k p <> Some id) ->
+  val (assign_all st p kw) id = val st id.
+Proof.
+  revert st. induction kw as [|[k v] r IH]; intros st H; simpl; [reflexivity|].
+  assert (Hr : forall k0 v0, In (k0, v0) r -> assoc String.eqb k0 p <> Some id)
+    by (intros k0 v0 Hi; apply (H k0 v0); now right).
+  destruct (assoc String.eqb k p) as [id0|] eqn:A; [|now apply IH].
+  rewrite (IH _ Hr). unfold val, set_val; simpl. apply assoc_upd_other.
+  intros ->. exact (H k v (or_introl eq_refl) A).
+Qed.
+
+(* every keyword reaches the child channel under that key: the very value (number AND type) *)
+Lemma assign_all_reaches st p kw k v id :
+  NoDup (map fst kw) -> NoDup (map snd p) -> In (k, v) kw -> assoc String.eqb k p = Some id ->
+  val (assign_all st p kw) id = Some v.
+Proof.
+  revert st. induction kw as [|[k0 v0] r IH]; intros st Hk Hp Hi A; simpl; [destruct Hi|].
+  inversion Hk as [|? ? Hx Hr]; subst. destruct Hi as [Hi|Hi].
+  - inversion Hi; subst. rewrite A. rewrite assign_all_keeps.
+    + unfold val, set_val; simpl. apply assoc_upd_same.
+    + intros k' v' Hi' A'. apply Hx.
+      assert (k' = k) by (exact (nodup_snd_inj _ _ _ _ Hp (assoc_In _ _ _ A') (assoc_In _ _ _ A))).
+      subst k'. change k with (fst (k, v')). now apply in_map.
+  - destruct (assoc String.eqb k0 p); now apply IH.
+Qed.
+
+Theorem set_inputs_through st kw st' :
+  wfs st -> NoDup (map fst kw) -> set_inputs st kw = (st', ROk) ->
+  same_graph st st' /\
+  exists p, build_io st DIn = Some p /\
+    forall k v, In (k, v) kw -> exists id, In (k, id) p /\ val st' id = Some v.
+Proof.
+  intros W Hk. unfold set_inputs. destruct (build_io st DIn) as [p|] eqn:E; [|discriminate].
+  destruct (forallb (fun kv => mems (fst kv) (map fst p)) kw) eqn:F; simpl; [|discriminate].
+  intros [= <-]. split; [apply assign_all_graph|]. exists p. split; [reflexivity|].
+  intros k v Hi. rewrite forallb_forall in F. pose proof (F _ Hi) as Hm. simpl in Hm.
+  apply mems_In, in_map_iff in Hm as ([k' id] & Ek & Hp). simpl in Ek. subst k'.
+  apply build_io_some in E as [-> Hn]. exists id. split; [exact Hp|].
+  apply assign_all_reaches with (k := k); try assumption.
+  - now apply entries_ids_nodup.
+  - now apply In_assoc_nodup.
 Qed.
